@@ -35,6 +35,8 @@ UGRID_VARIANTS = [
     dict(supplied={'face_edge', 'edge_face'}, coords_as_coords=False, fill='attr', start_index=1, edge_dim_declared=True),
     # a one-based mesh of exactly 9 nodes (3 x 3) kept whole by the clip: the highest one-based node number is a single 9
     dict(supplied={'face_face'}, coords_as_coords=False, fill='attr', start_index=1, nine_nodes=True),
+    # edges implied by an edge_face table alone: no edge_dimension attribute, no edge_node table
+    dict(supplied={'edge_face'}, coords_as_coords=False, fill='attr', start_index=0, edge_dim_declared=False, transposed=False),
     dict(),
 ]
 
